@@ -24,6 +24,7 @@ RULE = ('configurations built from a random binding set (literal value trees inc
         'restores exactly the model\'s representable subset (own classifier), import statements preserved (module, from/plain form, alias), re-serialisation '
         'identical; (b) identical text for every permutation / history / files; (c) parameters sorted inside sections, sections non-decreasing in the case-folded '
         'innermost name, one section per configurable; (d) markdown() keeps every binding line verbatim; (e) the text with provenance comments parses to the same '
+        'Dynamic registration: two configurables that occur only in values, registered by equally named modules the config never imports, bound in both orders. '
         'configuration. distinct = (value-kind set, name features, width class, import forms)')
 TIERS = {
     'quick': {'workers': 8, 'cases': 700, 'timeout': 600},
